@@ -14,13 +14,16 @@ import vlib
 import translate_decode as td
 
 PROP = "C02"
-MODULE = "Proofs.C02"
+MODULE = "Proofs.C02All"
 GOLDEN_MODULE = "Proofs.C02Golden"
 NS = "Teakra.Decode."
 THEOREMS = [NS + t for t in [
     "decode_unique", "pairDisjoint_sound", "cubeEmpty_sound", "table_allPairs", "decode_eq_of_matches",
     "decode_some", "operands_disjoint", "noOverlap_static_assert", "mask_covers", "expected_within_mask",
-    "expanded_iff", "needExpansion_iff", "unused_irrelevant", "unused_same_decode", "expected_matches"]]
+    "expanded_iff", "needExpansion_iff", "unused_irrelevant", "unused_same_decode", "expected_matches"]] + [
+    # the interpreter's fetch (model of Interpreter::Run) consumes a second word exactly when the decoder says so
+    "Teakra.decodeInstr_sig", "Teakra.fetch_decode_agrees", "Teakra.fetch_defined_agrees",
+    "Teakra.cycle_consumes_one", "Teakra.cycle_consumes_two"]
 TRUSTED = ["tools/translate_decode.py (decoder.h/operand.h -> Generated/DecodeTable.lean; the template machinery "
            "At/Unused/Const/Cn/AtConst/MatcherCreator/Matcher::Matches/Decode is pinned textually, not interpreted), "
            "tied by the exhaustive `dec` run over all 65536 first words",
@@ -29,7 +32,7 @@ TRUSTED = ["tools/translate_decode.py (decoder.h/operand.h -> Generated/DecodeTa
 ASSUMPTIONS = ["the disassembler's, assembler's (parser.cpp calls Disassembler::NeedExpansion) and test generator's "
                "views are observed through Decode<V> on the one shared table; Decode<Disassembler>/Decode<TestGenerator> "
                "are file-local classes and are not instantiated by the harness",
-               "the interpreter's pc advance over the operand word is checked by the instruction-level slices (C01/C06)"]
+               "the interpreter's pc advance over the operand word is proved for the model's loop iteration (cycle_consumes_one/two) and tied to the C++ by the instruction-level slices (C01/C06) and the fetch-loop slice"]
 
 GEN_JSON = os.path.join(vlib.BUILD, "gen", "decode_table.json")
 GOLDEN_JSON = os.path.join(vlib.LEAN, "TeakraModel", "Golden", "decode_table.json")
